@@ -60,6 +60,13 @@ def replay(case):
     kind = t['kind']
     if kind in ('flags', 'from_format'):
         return {'violates': True, 'observed': inp, 'key': kind + ':' + str(inp['row'][:3])}
+    if kind == 'prog':
+        from . import c14_prog, tv
+        bad, args = c14_prog.concrete_violations(t, inp)
+        if case.get('fact'):
+            bad = [b for b in bad if b[0] == case['fact']] or bad
+        return {'violates': bool(bad), 'observed': {'program': t['prog'], 'arguments': [tv._show(a) for a in args], 'outside inferred bound': [[k, {a: str(b)[:140] for a, b in i.items()}] for k, i in bad[:3]]},
+                'key': 'prog:%s:%s' % (t['prog'], bad[0][0] if bad else 'ok')}
     problems = []
     sc = Fraction(1, 1 << K)
     F1 = _fmt(t['s1'], inp, '1')
